@@ -5,7 +5,8 @@ Executable model of the colour conversion code of Rich (property C18):
 
 * `Palette.match`            rich/palette.py:44-79   → `colorDist2`, `minIndex`, `paletteMatch`
 * `Color.system`             rich/color.py:261-266   → `Color.system`
-* `Color.get_truecolor`      rich/color.py:278-310   → `getTruecolor`
+* `Color.get_truecolor`      rich/color.py:278-310   → `getTruecolorT`, `getTruecolor`; `TerminalTheme.__init__` → `TerminalTheme.init`
+* `ColorTriplet.hex`, `parse_rgb_hex`, `blend_rgb` → `Triplet.hex`, `parseRgbHex`, `blendRgb`
 * `Color.get_ansi_codes`     rich/color.py:442-468   → `getAnsiCodes`
 * `Color.downgrade`          rich/color.py:470-521   → `downgrade`
 * `ColorTriplet.normalized`, `colorsys.rgb_to_hls`, `round` — IEEE-double runtime facts, modelled with
@@ -51,13 +52,30 @@ def richPalettes : Palettes where
   themeNormal := Gen.themeNormal
   themeBright := Gen.themeBright
 
-/-- `TerminalTheme.__init__`: `self.ansi_colors = Palette(normal + (bright or normal))`
-(an empty `bright` list is falsy, like `None`). -/
-def Palettes.ansiColors (P : Palettes) : List Triplet :=
-  P.themeNormal ++ (match P.themeBright with
-    | none => P.themeNormal
-    | some [] => P.themeNormal
+/-- A `TerminalTheme` object (rich/terminal_theme.py) after `__init__`. -/
+structure TerminalTheme where
+  backgroundColor : Triplet
+  foregroundColor : Triplet
+  ansiColors : List Triplet
+deriving Repr, DecidableEq
+
+/-- `TerminalTheme.__init__(background, foreground, normal, bright=None)`:
+`self.ansi_colors = Palette(normal + (bright or normal))` — an empty `bright` list is falsy, like `None`. -/
+def TerminalTheme.init (background foreground : Triplet) (normal : List Triplet)
+    (bright : Option (List Triplet)) : TerminalTheme where
+  backgroundColor := background
+  foregroundColor := foreground
+  ansiColors := normal ++ (match bright with
+    | none => normal
+    | some [] => normal
     | some b => b)
+
+/-- `DEFAULT_TERMINAL_THEME`, built from its translated constructor arguments. -/
+def Palettes.defaultTheme (P : Palettes) : TerminalTheme :=
+  TerminalTheme.init P.themeBackground P.themeForeground P.themeNormal P.themeBright
+
+/-- `DEFAULT_TERMINAL_THEME.ansi_colors`. -/
+def Palettes.ansiColors (P : Palettes) : List Triplet := P.defaultTheme.ansiColors
 
 /-- Code-variant flags and runtime (floating point) facts the model is parametrised by. -/
 structure Cfg where
@@ -138,17 +156,21 @@ def assertSome {α : Type} : Option α → Except ColorErr α
   | some a => .ok a
   | none => .error .assertionError
 
-/-- `Color.get_truecolor(theme=None, foreground)` with the default terminal theme. -/
-def getTruecolor (P : Palettes) (c : Color) (foreground : Bool) : Except ColorErr Triplet :=
+/-- `Color.get_truecolor(theme, foreground)` (color.py:278-310) for an explicit theme. -/
+def getTruecolorT (P : Palettes) (theme : TerminalTheme) (c : Color) (foreground : Bool) : Except ColorErr Triplet :=
   match c.type with
   | .truecolor => assertSome c.triplet
   | .eightBit => do let n ← assertSome c.number; paletteGet P.eightBit n
-  | .standard => do let n ← assertSome c.number; paletteGet P.ansiColors n
+  | .standard => do let n ← assertSome c.number; paletteGet theme.ansiColors n
   | .windows => do let n ← assertSome c.number; paletteGet P.windows n
   | .default =>
     match c.number with
     | some _ => .error .assertionError      -- `assert self.number is None`
-    | none => .ok (if foreground then P.themeForeground else P.themeBackground)
+    | none => .ok (if foreground then theme.foregroundColor else theme.backgroundColor)
+
+/-- `Color.get_truecolor(theme=None, foreground)`: `if theme is None: theme = DEFAULT_TERMINAL_THEME`. -/
+def getTruecolor (P : Palettes) (c : Color) (foreground : Bool) : Except ColorErr Triplet :=
+  getTruecolorT P P.defaultTheme c foreground
 
 /-- `Color.get_ansi_codes(foreground)`: the SGR parameters, each a decimal number (`str(int)`). -/
 def getAnsiCodes (c : Color) (foreground : Bool) : Except ColorErr (List Nat) :=
@@ -240,5 +262,59 @@ def downgrade (cfg : Cfg) (P : Palettes) (c : Color) (system : ColorSystem) : Ex
 def Cfg.today : Cfg := { stdViaPalette := true, satExc := satExcDouble }
 /-- The repaired code (fix 2cec9e1, the former pending_fixes/C18-*.diff; what /repo contains now) with the same runtime facts. -/
 def Cfg.repaired : Cfg := { stdViaPalette := false, satExc := satExcDouble }
+
+/-! ## `ColorTriplet.hex`, `parse_rgb_hex`, `blend_rgb` -/
+
+/-- `f"{c:02x}"`: lower-case hexadecimal, zero-padded to two digits (more digits if `c ≥ 256`). -/
+def hexByte (c : Nat) : List Char :=
+  if c < 16 then '0' :: Nat.toDigits 16 c else Nat.toDigits 16 c
+
+/-- `ColorTriplet.hex`: `f"#{red:02x}{green:02x}{blue:02x}"`. -/
+def Triplet.hex (t : Triplet) : List Char := '#' :: (hexByte t.red ++ hexByte t.green ++ hexByte t.blue)
+
+/-- value of an ASCII hexadecimal digit. -/
+def hexDigitVal? (c : Char) : Option Nat :=
+  let n := c.toNat
+  if 48 ≤ n ∧ n ≤ 57 then some (n - 48)
+  else if 97 ≤ n ∧ n ≤ 102 then some (n - 87)
+  else if 65 ≤ n ∧ n ≤ 70 then some (n - 55)
+  else none
+
+/-- ASCII characters `int()` strips: TAB LF VT FF CR SPACE (not FS..US, unlike `str.isspace`). -/
+def intSpaceAscii (c : Char) : Bool := c.toNat == 32 || (9 ≤ c.toNat && c.toNat ≤ 13)
+
+/-- `int(s, 16)` for a two-character **ASCII** string `s = [a, b]`: two hex digits; or one hex digit
+with leading / trailing white space; or a sign followed by a digit.  Everything else (`0x`, `_`, empty
+after stripping …) is `ValueError`. -/
+def pyIntHex2 (a b : Char) : Except ColorErr Int :=
+  match hexDigitVal? a, hexDigitVal? b with
+  | some x, some y => .ok (16 * x + y : Nat)
+  | none, some y =>
+    if intSpaceAscii a || a == '+' then .ok (y : Nat)
+    else if a == '-' then .ok (-(y : Nat))
+    else .error .valueError
+  | some x, none => if intSpaceAscii b then .ok (x : Nat) else .error .valueError
+  | none, none => .error .valueError
+
+/-- `parse_rgb_hex(hex_color)` (color.py:524): `assert len(hex_color) == 6`, then three `int(…, 16)`.
+Components can be negative (`"-f…"`), so they are integers here. -/
+def parseRgbHex (s : List Char) : Except ColorErr (Int × Int × Int) :=
+  match s with
+  | [a, b, c, d, e, f] => do
+    let r ← pyIntHex2 a b
+    let g ← pyIntHex2 c d
+    let bl ← pyIntHex2 e f
+    .ok (r, g, bl)
+  | _ => .error .assertionError
+
+/-- One channel of `blend_rgb`: `int(c1 + (c2 - c1) * cross_fade)` for the dyadic rational
+`cross_fade = k / 2^n` (exact in IEEE doubles for the sizes the driver admits); `int()` truncates
+toward zero. -/
+def blendChannel (c1 c2 : Nat) (k : Int) (n : Nat) : Int :=
+  Int.tdiv ((c1 : Int) * (2 ^ n : Nat) + ((c2 : Int) - (c1 : Int)) * k) ((2 ^ n : Nat) : Int)
+
+/-- `blend_rgb(color1, color2, cross_fade = k / 2^n)` (color.py:533). -/
+def blendRgb (t1 t2 : Triplet) (k : Int) (n : Nat) : Int × Int × Int :=
+  (blendChannel t1.red t2.red k n, blendChannel t1.green t2.green k n, blendChannel t1.blue t2.blue k n)
 
 end RichModel
